@@ -1,10 +1,18 @@
 import HexProofs.Manager.Trim
+import HexProofs.Manager2.TrimTf
+import HexProofs.Manager2.ShiftInst
+import HexProofs.Lib.IntInst
 import HexProps.C03
 /-
-C15 – Lifespan trimming keeps exactly the window (first clause; every float carrier `F`).
+C15 – Lifespan trimming keeps exactly the window (first clause; every float carrier `F`):
+`schedule` (no timeframe) and `schedule_tf` (collapsing timeframe).
 The second clause (readings on retained candles equal those of the untrimmed run) rests on the
-per-indicator shift invariance and is stated in `HexProps/C15b.lean` once those contracts exist;
-until then it is covered by correspondence + search only (see DESIGN.md, C15).
+per-indicator SHIFT invariance.  Proved here for the purely recursive LEAF kinds (HLA, TR, OBV,
+Counter; EMA and RMA once seeded): `readings_unchanged_by_trimming_reading` (one reading, through
+the engine's dispatch) and `readings_unchanged_by_trimming_append_*` (one whole `Indicator.append`
+on a trimmed indicator next to its untrimmed twin: resume index, skip test, loop, writes); plus
+the single-reading shift lemmas of the windowed start-up / look-back kinds SMA, EMA, ROC.  The
+schedule-level statement for all covered leaf kinds is `C15b_FULL` (not proved; see there).
 -/
 namespace Hex.C15
 open Hex Hex.C03
@@ -135,5 +143,258 @@ theorem schedule (life : Int) (hlife : 0 ≤ life) (chunks : List (List (Candle 
       rw [happ]
       have := ih (s ++ ch) n1 hs' (Or.inr hnew)
       simpa [List.append_assoc] using this
+
+/-! ### with a collapsing timeframe -/
+
+omit [PyF F] in
+theorem rawBk_of {xs : List (Candle F)} (h : RawStream xs) : RawBk xs := ⟨h.stamped, h.plain, h.sorted⟩
+
+omit [PyF F] in
+theorem inWindow_eq (n life : Int) : (inWindow n life : Candle F → Bool) = fun c => !tooOld (n - life) c := rfl
+
+/-- **Every append schedule on a collapsing timeframe.**  After construction and after every
+append (the statement holds for every schedule, hence for every prefix of one) the retained
+candles are exactly the buckets of the resampled stream so far (`resample tf`, C03) that are not
+older than the newest bucket stamp minus the lifespan, in order; no call raises.  Trimming drops
+whole leading buckets and never the newest one, so re-collapsing the retained buckets with later
+candles loses nothing. -/
+theorem schedule_tf (tf : Int) (htf : 0 < tf) (life : Int) (hlife : 0 ≤ life)
+    (init : List (Candle F)) (chunks : List (List (Candle F))) (h : RawStream (init ++ chunks.flatten)) :
+    ∃ n', runSchedule (cfgTfLife tf life) init chunks
+        = .ok { cfg := cfgTfLife tf life,
+                candles := (resample tf (init ++ chunks.flatten)).filter (inWindow n' life) } ∧
+      (init ++ chunks.flatten = [] ∨ newest (resample tf (init ++ chunks.flatten)) = some n') := by
+  have hraw : RawBk (init ++ chunks.flatten) := rawBk_of h
+  suffices H : ∀ (chunks : List (List (Candle F))) (s : List (Candle F)) (n : Int), RawBk (s ++ chunks.flatten) →
+      (s = [] ∨ newest (resample tf s) = some n) →
+      ∃ n', (chunks.foldlM (fun (m : Manager F) ch => m.append ch)
+              { cfg := cfgTfLife tf life, candles := (resample tf s).filter (inWindow n life) }
+            = .ok { cfg := cfgTfLife tf life,
+                    candles := (resample tf (s ++ chunks.flatten)).filter (inWindow n' life) }) ∧
+            (s ++ chunks.flatten = [] ∨ newest (resample tf (s ++ chunks.flatten)) = some n') by
+    unfold runSchedule Manager.init
+    obtain ⟨n0, h0, hn0, _⟩ := tasks_tf_life_append tf htf life hlife [] init
+      (by simpa using hraw.append_left) 0 (Or.inl rfl)
+    simp only [resample, resampleR, List.foldl_nil, List.reverse_nil, List.filter_nil, List.nil_append] at h0 hn0
+    rw [h0]
+    simp only [bind, Except.bind, pure, Except.pure]
+    exact H chunks init n0 hraw (by simpa [newest, resample, resampleR] using hn0)
+  intro chunks
+  induction chunks with
+  | nil => intro s n _ hn; exact ⟨n, by simp [List.foldlM, pure, Except.pure], by simpa using hn⟩
+  | cons ch rest ih =>
+    intro s n hs hn
+    have hs' : RawBk ((s ++ ch) ++ rest.flatten) := by simpa [List.append_assoc] using hs
+    simp only [List.foldlM_cons, bind, Except.bind]
+    by_cases hch : ch = []
+    · subst hch
+      have e : Manager.append ({ cfg := cfgTfLife tf life, candles := (resample tf s).filter (inWindow n life) } : Manager F) []
+          = .ok { cfg := cfgTfLife tf life, candles := (resample tf s).filter (inWindow n life) } := by
+        simp [Manager.append]
+      rw [e]
+      have := ih s n (by simpa using hs) hn
+      simpa using this
+    · have hempty : ch.isEmpty = false := by cases ch <;> simp at hch ⊢
+      obtain ⟨n1, h1, hn1, _⟩ := tasks_tf_life_append tf htf life hlife s ch hs'.append_left n hn
+      have happ : Manager.append ({ cfg := cfgTfLife tf life, candles := (resample tf s).filter (inWindow n life) } : Manager F) ch
+          = .ok { cfg := cfgTfLife tf life, candles := (resample tf (s ++ ch)).filter (inWindow n1 life) } := by
+        unfold Manager.append
+        simp only [hempty, Bool.false_eq_true, if_false, inWindow_eq, h1, bind, Except.bind]
+        rfl
+      rw [happ]
+      have hn1' : s ++ ch = [] ∨ newest (resample tf (s ++ ch)) = some n1 := hn1
+      have := ih (s ++ ch) n1 hs' hn1'
+      simpa [List.append_assoc] using this
+
+/-- the retained buckets are a SUFFIX of the resampled stream (whole leading buckets are dropped,
+nothing else), and the newest bucket is always retained -/
+theorem window_is_suffix (tf : Int) (htf : 0 < tf) (life : Int) (hlife : 0 ≤ life) (xs : List (Candle F))
+    (h : RawStream xs) (n : Int) (hn : newest (resample tf xs) = some n) :
+    (resample tf xs).filter (inWindow n life) <:+ resample tf xs ∧
+    (resample tf xs).getLast? = ((resample tf xs).filter (inWindow n life)).getLast? := by
+  have hraw := rawBk_of h
+  have hb := resampleR_bucketed tf htf xs (hraw.cleanOk tf) (labelsMono_of_sorted tf htf xs h.sorted)
+  have hSS : SortedStamped (resample tf xs) := sortedStamped_of_bucketedR tf _ hb
+  rw [inWindow_eq, ← dropWhile_eq_filter_sorted (n - life) _ hSS]
+  refine ⟨List.dropWhile_suffix _, ?_⟩
+  unfold newest at hn
+  cases hl : (resample tf xs).getLast? with
+  | none => rw [hl] at hn; cases hn
+  | some lastC =>
+    rw [hl] at hn
+    have hlt : lastC.ts = some n := by simpa using hn
+    have hkeep : tooOld (n - life) lastC = false := by
+      simp only [tooOld, hlt, decide_eq_false_iff_not, not_lt]; linarith
+    have hsplit := (List.takeWhile_append_dropWhile (p := tooOld (n - life)) (l := resample tf xs))
+    have hne : (resample tf xs).dropWhile (tooOld (n - life)) ≠ [] := by
+      intro he
+      rw [he, List.append_nil] at hsplit
+      have hmem : lastC ∈ (resample tf xs).takeWhile (tooOld (n - life)) := by
+        rw [hsplit]; exact List.mem_of_getLast? hl
+      have := mem_takeWhile_imp' _ _ lastC hmem
+      rw [hkeep] at this; cases this
+    have : (resample tf xs).getLast? = ((resample tf xs).dropWhile (tooOld (n - life))).getLast? := by
+      conv_lhs => rw [← hsplit]
+      rw [List.getLast?_append]
+      cases hq : ((resample tf xs).dropWhile (tooOld (n - life))).getLast? with
+      | none => exact absurd (List.getLast?_eq_none_iff.1 hq) hne
+      | some q => simp
+    rw [← this, hl]
+
+/-! ### non-vacuity -/
+
+example : RawStream C03.demo := ⟨by decide, by decide, by decide⟩
+
+/-- the demo stream appended one candle at a time from an EMPTY manager, 60-second timeframe,
+lifespan 30 s: only the newest bucket (stamp 180) is retained; with lifespan 60 s both are -/
+example : ((runSchedule (cfgTfLife 60 30) [] [[C03.demo[0]], [C03.demo[1]], [C03.demo[2]]]).toOption.map
+      (fun m => m.candles.map (·.ts))) = some [some 180] := by decide
+example : ((runSchedule (cfgTfLife 60 60) [] [[C03.demo[0]], [C03.demo[1]], [C03.demo[2]]]).toOption.map
+      (fun m => m.candles.map (·.ts))) = some [some 120, some 180] := by decide
+
+/-! ### second clause: the readings on the retained candles -/
+
+/-- **Shift invariance of one reading** (purely recursive leaf kinds, through `calcKind` with any
+helper services): computing index `i - d` on the list whose first `d` candles were popped gives
+the reading of index `i` on the untrimmed list (and returns the popped list), as long as ONE
+predecessor is retained (`d ≤ i - 1`) and, for EMA / RMA, the recurrence has been seeded. -/
+theorem readings_unchanged_by_trimming_reading (ops ops' : Ops F) (ind : Ind F) (hk : OnePred ind.kind)
+    (cs : List (Candle F)) (i : Int) (d : Nat) (hd : (d : Int) + 1 ≤ i) (hi : i < cs.length)
+    (hs : Seeded ind.kind { cs := cs, i := i, name := ind.name }) :
+    calcKind ops' ind { cs := cs.drop d, i := i - d, name := ind.name }
+      = (calcKind ops ind { cs := cs, i := i, name := ind.name }).map (fun r => (r.1, r.2.drop d)) :=
+  calcKind_shift ops ops' ind hk cs i d hd hi hs
+
+/-- EMA before seeding: shift-invariant when the whole start-up window (`period` candles ending at
+the current one) and one more index are retained -/
+theorem readings_unchanged_by_trimming_ema_window (x : Ctx F) (d : Nat) (p : Int) (input : String)
+    (sm : Num F) (hp : 1 ≤ p) (hd : (d : Int) + 1 ≤ x.i) (hi : x.i < x.cs.length) (hw : (d : Int) + p ≤ x.i + 1) :
+    Calc.ema (x.shift d) p input sm = Calc.ema x p input sm := ema_shift_window x d p input sm hp hd hi hw
+
+/-- SMA (running update reads `index - period`): shift-invariant when `period` predecessors are retained -/
+theorem readings_unchanged_by_trimming_sma_window (x : Ctx F) (d : Nat) (p : Int) (input : String)
+    (hp : 1 ≤ p) (hi : x.i < x.cs.length) (hw : (d : Int) + p ≤ x.i) :
+    Calc.sma (x.shift d) p input = Calc.sma x p input := sma_shift_window x d p input hp hi hw
+
+/-- ROC (reads `index - period`): shift-invariant when `period` (≥ 1: one) predecessors are retained -/
+theorem readings_unchanged_by_trimming_roc_window (x : Ctx F) (d : Nat) (p : Int) (input : String)
+    (hp : 0 ≤ p) (hi : x.i < x.cs.length) (hd : (d : Int) + 1 ≤ x.i) (hw : (d : Int) + p ≤ x.i) :
+    Calc.roc (x.shift d) p input = Calc.roc x p input := roc_shift_window x d p input hp hi hd hw
+
+/-- **One `append` on a trimmed indicator next to its untrimmed twin – HLA, TR, OBV, Counter.**
+`a`: the finished candles of the untrimmed twin; the trimmed indicator holds `a.drop d₀`.  Both
+receive `new`.  If the trim of this append (result `r`) leaves two already finished candles – or
+one that the loop's skip test passes over – (`KeepOK`), the trimmed indicator ends with exactly
+the untrimmed twin's candles minus the popped ones: identical readings on every retained candle,
+and the same exception if a reading raises.  Covers `_find_calc_index` on the popped list, the
+skip test, the index shift of every read and of the write. -/
+theorem readings_unchanged_by_trimming_append_free (ind : Ind F) (hl : IsLeaf ind) (hk : OnePredFree ind.kind)
+    (life : Int) (a new r : List (Candle F)) (d₀ : Nat) (actA actB : Int) (hd₀ : d₀ ≤ a.length)
+    (hfin : ∀ c ∈ a, hasKey ind.name c = true) (hnew : ∀ c ∈ new, Plain c) (hne : new ≠ [])
+    (htrim : trimCandles (some life) (a.drop d₀ ++ new) = .ok r)
+    (hkeep : KeepOK ind.name a (a.length + new.length - r.length)) :
+    candlesOf (IndState.append ({ tree := ind, mgr := { cfg := cfgLife life, candles := a.drop d₀ }, active := actB } : IndState F) new)
+      = (candlesOf (IndState.append ({ tree := ind, mgr := { cfg := {}, candles := a }, active := actA } : IndState F)
+          new)).map (·.drop (a.length + new.length - r.length)) :=
+  append_trimmed ind hl (shiftOK_free ind hk) life a new r d₀ actA actB hd₀ hfin hnew hne htrim hkeep trivial
+
+/-- the same for **EMA**, once seeded (the last finished candle of the twin holds a non-`None` EMA) -/
+theorem readings_unchanged_by_trimming_append_ema (ind : Ind F) (hl : IsLeaf ind) (p : Int) (input : String)
+    (sm : Num F) (hk : ind.kind = .ema p input sm) (hname : IsKey ind.name)
+    (life : Int) (a new r : List (Candle F)) (d₀ : Nat) (actA actB : Int) (hd₀ : d₀ ≤ a.length)
+    (hfin : ∀ c ∈ a, hasKey ind.name c = true) (hnew : ∀ c ∈ new, Plain c) (hne : new ≠ [])
+    (htrim : trimCandles (some life) (a.drop d₀ ++ new) = .ok r)
+    (hkeep : KeepOK ind.name a (a.length + new.length - r.length))
+    (hseed : (Ctx.lastReading ind.name a).isNone = false) :
+    candlesOf (IndState.append ({ tree := ind, mgr := { cfg := cfgLife life, candles := a.drop d₀ }, active := actB } : IndState F) new)
+      = (candlesOf (IndState.append ({ tree := ind, mgr := { cfg := {}, candles := a }, active := actA } : IndState F)
+          new)).map (·.drop (a.length + new.length - r.length)) :=
+  append_trimmed ind hl (emaShiftOK ind p input sm hk hname) life a new r d₀ actA actB hd₀ hfin hnew hne htrim hkeep
+    (seeded_at_end a new ind.name hne hseed)
+
+/-- the same for **RMA** (Wilder), once seeded -/
+theorem readings_unchanged_by_trimming_append_rma (ind : Ind F) (hl : IsLeaf ind) (p : Int) (input : String)
+    (hk : ind.kind = .rma p input) (hname : IsKey ind.name)
+    (life : Int) (a new r : List (Candle F)) (d₀ : Nat) (actA actB : Int) (hd₀ : d₀ ≤ a.length)
+    (hfin : ∀ c ∈ a, hasKey ind.name c = true) (hnew : ∀ c ∈ new, Plain c) (hne : new ≠ [])
+    (htrim : trimCandles (some life) (a.drop d₀ ++ new) = .ok r)
+    (hkeep : KeepOK ind.name a (a.length + new.length - r.length))
+    (hseed : (Ctx.lastReading ind.name a).isNone = false) :
+    candlesOf (IndState.append ({ tree := ind, mgr := { cfg := cfgLife life, candles := a.drop d₀ }, active := actB } : IndState F) new)
+      = (candlesOf (IndState.append ({ tree := ind, mgr := { cfg := {}, candles := a }, active := actA } : IndState F)
+          new)).map (·.drop (a.length + new.length - r.length)) :=
+  append_trimmed ind hl (rmaShiftOK ind p input hk hname) life a new r d₀ actA actB hd₀ hfin hnew hne htrim hkeep
+    (seeded_at_end a new ind.name hne hseed)
+
+/-- two retained finished candles always satisfy `KeepOK` -/
+theorem keep_two (name : String) (a new r : List (Candle F)) (h : new.length + 2 ≤ r.length)
+    (hr : r.length ≤ a.length + new.length) : KeepOK name a (a.length + new.length - r.length) :=
+  keepOK_of_two name a new r h hr
+
+/-! #### the full second clause (NOT proved) -/
+
+/-- finished candles that must survive each trim, per leaf kind, for every state (`none`: kind not
+covered by this statement).  `2` is what `_find_calc_index` needs to resume at the first new candle;
+`period`-sized entries are the start-up windows / explicit look-backs. -/
+def lookBack : Kind F → Option Nat
+  | .hla | .tr | .obv | .counter .. => some 2
+  | .ema p _ _ | .rma p _ => some (max 2 (p - 1).toNat)
+  | .wma p _ | .vwma p => some (max 2 (p - 1).toNat)
+  | .sma p _ | .roc p _ => some (max 2 p.toNat)
+  | _ => none
+
+/-- at every append the lifespan manager either has not popped anything yet, or still holds `L`
+candles from before that append -/
+def Retains (L : Nat) (life : Int) (init : List (Candle F)) (chunks : List (List (Candle F))) : Prop :=
+  (∀ m : Manager F, runSchedule (cfgLife life) init [] = .ok m → m.candles.length = init.length) ∧
+  ∀ k, k < chunks.length → ∀ m : Manager F, runSchedule (cfgLife life) init (chunks.take (k + 1)) = .ok m →
+    m.candles.length = (init ++ (chunks.take (k + 1)).flatten).length ∨
+    (chunks[k]?.getD []).length + L ≤ m.candles.length
+
+/-- **C15, second clause, full strength for leaf indicators** (NOT proved).  For every covered
+leaf kind and every schedule that retains the kind's look-back at every append, the lifespan-trimmed
+indicator ends with the candles of its untrimmed twin minus the popped ones (same readings, same
+exception).  Missing: (1) the induction over the schedule (the one-append theorems above are its
+step; what is left is carrying "the twin is finished / seeded" from append to append and expressing
+`KeepOK` through the timestamps of the stream); (2) unseeded EMA / RMA and SMA, ROC, WMA, VWMA at the
+loop level (their single-reading shift lemmas are above / analogous); (3) HL, Donchian, Aroon,
+Amorph; (4) every composite indicator (sub-indicators, managed helpers) and Hexital; (5) the
+combination with a timeframe. -/
+def C15b_FULL : Prop :=
+  ∀ (k : Kind F) (name : String) (round : Nat) (L : Nat), Covered name k → lookBack k = some L →
+    ∀ (life : Int) (init : List (Candle F)) (chunks : List (List (Candle F))), 0 ≤ life →
+      (∀ c ∈ init ++ chunks.flatten, Plain c) → SortedStamped (init ++ chunks.flatten) →
+      Retains L life init chunks →
+      ∃ d, candlesOf (runIndicator (mkTop k name round) (cfgLife life) init chunks)
+        = (candlesOf (runIndicator (mkTop k name round) {} init chunks)).map (·.drop d)
+
+/-! #### non-vacuity of the one-append theorems -/
+
+def obvDemo : Ind Int := mkTop .obv "OBV" 4
+
+/-- three finished candles (60, 120, 180) of the untrimmed twin, one new candle (240) -/
+def demoA : List (Candle Int) :=
+  [ { o := .int 1, h := .int 3, l := .int 1, c := .int 2, v := .int 10, ts := some 60, inds := [("OBV", .int 10)] },
+    { o := .int 2, h := .int 5, l := .int 2, c := .int 4, v := .int 20, ts := some 120, inds := [("OBV", .int 30)] },
+    { o := .int 4, h := .int 4, l := .int 0, c := .int 1, v := .int 5, ts := some 180, inds := [("OBV", .int 25)] } ]
+def demoNew : List (Candle Int) :=
+  [ { o := .int 1, h := .int 2, l := .int 1, c := .int 2, v := .int 7, ts := some 240 } ]
+
+example : IsLeaf obvDemo := isLeaf_mkTop _ _ _ rfl rfl
+example : OnePredFree obvDemo.kind := .obv
+example : ∀ c ∈ demoA, hasKey obvDemo.name c = true := by decide
+example : ∀ c ∈ demoNew, Plain c := by decide
+/-- lifespan 150 s: the append of the candle stamped 240 pops the candle stamped 60 -/
+example : trimCandles (some 150) (demoA.drop 0 ++ demoNew) = .ok ((demoA ++ demoNew).drop 1) := rfl
+example : KeepOK obvDemo.name demoA (demoA.length + demoNew.length - ((demoA ++ demoNew).drop 1).length) :=
+  keep_two _ demoA demoNew _ (by decide) (by decide)
+
+/-- all hypotheses of the one-append theorem hold together on the demo -/
+example :
+    candlesOf (IndState.append ({ tree := obvDemo, mgr := { cfg := cfgLife 150, candles := demoA.drop 0 }, active := 2 } : IndState Int) demoNew)
+      = (candlesOf (IndState.append ({ tree := obvDemo, mgr := { cfg := {}, candles := demoA }, active := 2 } : IndState Int)
+          demoNew)).map (·.drop (demoA.length + demoNew.length - ((demoA ++ demoNew).drop 1).length)) :=
+  readings_unchanged_by_trimming_append_free obvDemo (isLeaf_mkTop _ _ _ rfl rfl) .obv 150 demoA demoNew _ 0 2 2
+    (by decide) (by decide) (by decide) (by decide) rfl (keep_two _ demoA demoNew _ (by decide) (by decide))
 
 end Hex.C15
